@@ -41,8 +41,11 @@ def encode(keys, arrays, common, index_word=None, rowid_word=4, dims=None):
     for a in arrays:
         payload += struct.pack(WORD_FMT[rowid_word], len(a))
     for a in arrays:
-        for r in a:
-            payload += struct.pack(WORD_FMT[rowid_word], r)
+        if len(a) > 64:
+            payload += numpy.asarray(a, dtype="<u%d" % rowid_word).tobytes()
+        else:
+            for r in a:
+                payload += struct.pack(WORD_FMT[rowid_word], r)
     return MAGIC + struct.pack("<Q", len(payload)) + bytes(payload)
 
 
@@ -139,6 +142,27 @@ def cases_of_block(p):
         for common in ALPHA:
             for arrays in itertools.product(R, repeat=p["n"]):
                 yield list(keys), [list(a) for a in arrays], common
+
+
+# ---------------------------------------------------------------- entries of very different lengths in one file
+# (a writer that batches small arrays and streams large ones, a reader that converts per file instead of per entry ...)
+MIXED_LENGTHS = [0, 1, 5, 4096, 16383, 16384, 16385, 65536, 70000]
+
+
+def mixed_cases():
+    longs = [n for n in MIXED_LENGTHS if n > 100]
+    out = [[a, b] for a in MIXED_LENGTHS for b in MIXED_LENGTHS]
+    out += [[5, x, 1] for x in longs] + [[x, 0, 5] for x in longs] + [[1, x, y] for x in longs for y in longs if x != y]
+    return out
+
+
+def mixed_arrays(lengths):
+    """Distinct, strictly increasing row ids per entry (entry i: multiples of i+2 shifted by i), so that a misplaced block is visible."""
+    return [(numpy.arange(n, dtype=numpy.int64) * (i + 2) + i).tolist() for i, n in enumerate(lengths)]
+
+
+def mixed_keys(lengths):
+    return [(i + 1, 7) for i in range(len(lengths))]
 
 
 # ---------------------------------------------------------------- scratch files
